@@ -1460,6 +1460,26 @@ func checkC10(c *Ctx, r *Report) {
 	// "their results appear in the record": the populated event must still hold them when it is formatted —
 	// an event released to the pool while queued or in use is reset (shared with C03.event)
 	r.include("C10.record/", "event-typestate", func(sub *Report) { c.checkEventTypestate(sub, ro) })
+	// who-may-read: the hook variables are consulted only by the recorder; any other reader is an additional
+	// invocation site (a second call per event, possibly with another context or on another goroutine)
+	nReads, badReads := 0, 0
+	for _, f := range c.Funcs {
+		eachInstr(f, func(in ssa.Instruction) {
+			if ld, ok := in.(*ssa.UnOp); ok && ld.Op == token.MUL {
+				if g, ok := ld.X.(*ssa.Global); ok && hooks[g] != "" {
+					nReads++
+					if f != R {
+						badReads++
+						r.Fail("C10.hook-sites:"+fname(f)+"→"+hooks[g], c.instrPos(in), "hook %s is read outside the recorder: every such site is a further invocation per event or per write, outside the level gate and not with the caller's context", hooks[g])
+					}
+				}
+			}
+		})
+	}
+	if badReads == 0 {
+		r.OK("C10.hook-sites:"+fname(R), "%d reads of the three hook variables, all inside the recorder", nReads)
+	}
+	r.Floor("hook variable reads", nReads, 6)
 	// worker does not reach hooks
 	if ro.Worker != nil {
 		bad := 0
